@@ -65,9 +65,9 @@ type Case struct {
 
 var (
 	hosts   = []string{"a.example", "b.a.example", "other.test", "a.example:8443"}
-	paths   = []string{"/", "/p", "/p/q", "/p/q/r", "/other"}
+	paths   = []string{"/", "/p", "/p/q", "/p/q/r", "/other", "/p/", "/p/q/", "/other/", "/p//q", "/p/./q"}
 	cnames  = []string{"sid", "pref", "csrf", "theme", "cart"}
-	cpaths  = []string{"", "/", "/p", "/p/q", "/nomatch"}
+	cpaths  = []string{"", "/", "/p", "/p/q", "/nomatch", "/p/", "/p/q/", ""}
 	domains = []string{"", "", "a.example", "b.a.example", "example", "other.test", ".a.example"}
 )
 
